@@ -3,19 +3,31 @@
 P  lean/MjProof/Props/C05.lean: theorems over the reals about the hand model lean/MjProof/Model/Integrate.lean
    (mj_integratePosInd, mj_nextActivation, the activation / velocity / position / time update of mj_advance,
    mj_RungeKutta) built on the *generated* kernels (mju_quatIntegrate, mju_clip, ...) and the *generated* tableau
-   lean/MjProof/Gen/RK4.lean.
-T  (a) translators: translate/c2lean.py (kernels, bitwise translation validation) and translate/c05_rk4.py
-       (RK4_A / RK4_B and the use-shape of mj_RungeKutta), re-run on every check;
+   lean/MjProof/Gen/RK4.lean; theorems about WHICH force-velocity derivatives enter the D of the (M - h D) solve, over an
+   interpreter of the *generated* top-level statement lists of mjd_smooth_vel / mjd_actuator_vel / mjd_passive_vel /
+   mj_passive / mj_fluid (lean/MjProof/Gen/C05DTerms.lean).
+T  (a) translators: translate/c2lean.py (kernels, bitwise translation validation), translate/c05_rk4.py
+       (RK4_A / RK4_B and the use-shape of mj_RungeKutta) and translate/c05_dterms.py (early returns on the spring /
+       damper / actuation disable flags between the term blocks of the derivative and passive-force functions, flg_bias
+       of mj_implicitSkip), re-run on every check;
    (b) direct differential: the same op lines go to drv_c05 (Lean model on Float) and to harness/c/c05_integrate.c
        (the real mj_integratePos / mj_nextActivation / mju_quatIntegrate / mju_clip / RK4_A,B), compared bitwise;
    (c) update-rule differential on the real engine: mj_step is run on generated models under all four integrators;
        the harness records (by ELF symbol interposition, no engine code is modified) the engine's own pre-step
        state, qacc / act_dot, the acceleration vector really added to qvel, the velocity really used for the
        position update and every RK4 stage state / derivative; the Lean model is fed exactly those and must
-       reproduce the engine's post-step state (and RK4 stage states) BITWISE.
+       reproduce the engine's post-step state (and RK4 stage states) BITWISE;
+   (d) term-gating differential: 336 single-term probe scenes (7 force terms x 16 combinations of the spring / damper /
+       actuation / eulerdamp disable flags x Euler / implicit / implicitfast, exhaustive) are stepped on the real engine;
+       "the term's force is applied" (finite differences of its own force array) and "its derivative is in D" (the vector
+       added to qvel differs from qacc) are measured and must equal the Lean model's answer (op DT).
 S  property oracle on the engine's trace alone (no Lean involved): unit quaternions, time' = time + h, act within
    actrange, qvel' = qvel + h*acc, explicit Euler uses qacc itself, positions use the NEW velocity, classical RK4
-   combination, activation dynamics, residual of the (M - hD) solve of the implicit integrators.
+   combination, activation dynamics, residual of the (M - hD) solve of the implicit integrators, and D itself: the dense
+   qDeriv that mj_step left behind (and the 6x6 blocks of mjd_freeMhat) against central differences of the engine's own
+   smooth forces w.r.t. qvel taken at the pre-step state under the CURRENT option flags (op stepd), on generated models
+   with fluid media (inertia-box / ellipsoid, wind), polynomial joint / tendon damping and the spring / damper /
+   actuation / gravity disable flags.
 """
 import json
 import math
@@ -27,9 +39,9 @@ from gen.enums import E
 from gen.models import ModelGen, unit_quat, unit_vec
 
 META = {
-    "technique": "hand-written executable Lean model of mj_advance / mj_integratePosInd / mj_nextActivation / mj_RungeKutta over the law-free number class MjNum, built on c2lean-generated kernels (mju_quatIntegrate, mju_clip, mju_max, mj_lugreStribeck, regenerated each run) and a translator-generated RK4 tableau (translate/c05_rk4.py parses the C initialisers and checks the use-shape of mj_RungeKutta); Lean 4 proofs over the reals (unfolding, branch case splits, ring/field_simp/norm_num, list induction); bitwise differential of the Float instance against the real functions and against mj_step traces taken by ELF symbol interposition; property oracle on the traces",
-    "text": "Proved over the reals for the model (all inputs): the advance step is the documented semi-implicit rule (velocity first: v' = v + h a; then positions on the joint manifold with the NEW velocity; time' = time + h), per joint type (slide/hinge x + h v, free translation p + h v, quaternion q * exp(h w / 2) for unit q in both branches of the mjMINVAL guard of mju_normalize3 and of the angle == 0 test); the generated mju_quatIntegrate returns a quaternion with | |q'| - 1 | <= mjMINVAL for EVERY input (exactly unit whenever mju_normalize4 resets or divides) and mj_integratePos keeps / produces such quaternions in every free and ball slot of qpos of any layout while leaving the result length equal to nq; the generated RK4 tableau is the classical one and satisfies all eight order-4 conditions with C = row sums; the modelled mj_RungeKutta stage and final combinations equal the classical weighted sums componentwise (stage times t + c_i h, final time t + h); mj_nextActivation stays inside actrange for every dyntype except mjDYN_DCMOTOR when actlimited (and the DC-motor integral slot inside +-Imax), is the Euler step otherwise and the documented exact filter formula for filterexact; given a certificate (M - hD) x = M a the implicit velocity update v + h x satisfies the documented linear system and equals v + h (M - hD)^-1 M a when the matrix is invertible. Tied to /repo on every run by translation (kernels, tableau), bitwise direct differential (mj_integratePos, mj_nextActivation incl. every DC-motor slot, mju_quatIntegrate, mju_clip, RK4_A/B) and the bitwise update-rule differential on mj_step under Euler / RK4 / implicit / implicitfast.",
-    "note": "Stated over the reals (rounding outside the proofs; the Float instance of the same definitions is compared bitwise with the engine). Not modelled: history buffers, sleeping (mj_sleep and the awake-index variants; sleep is never enabled in the sampled models), plugins, qacc_warmstart, flex-CG. The linear solve inside Euler-with-damping / implicit / implicitfast is NOT modelled: theorem implicit_update_partial takes the solution as a certified input, and the oracle checks the residual of the engine's own solution against a dense (M - hD) assembled from the engine's M and qDeriv (D itself is C25's concern). The re-anchoring of integrator setpoints on rotational transmissions (wrapPeriod / wrapSetpoint / SO3) is modelled as coded and compared bitwise, but it is applied AFTER the actrange clamp, so the final act of such an actuator can leave actrange: this is reported as a finding (key c05:act-outside-actrange:wrap-after-clamp), the theorem nextActivation_in_actrange is about mj_nextActivation and advanceAct_in_actrange needs wrap period 0. The flat qpos/qvel/act arrays are modelled as the concatenation of per-joint / per-actuator blocks (layout checked on every sampled model, index arithmetic covered by the correspondence only).",
+    "technique": "hand-written executable Lean model of mj_advance / mj_integratePosInd / mj_nextActivation / mj_RungeKutta over the law-free number class MjNum, built on c2lean-generated kernels (mju_quatIntegrate, mju_clip, mju_max, mj_lugreStribeck, regenerated each run) and a translator-generated RK4 tableau (translate/c05_rk4.py parses the C initialisers and checks the use-shape of mj_RungeKutta); Lean 4 proofs over the reals (unfolding, branch case splits, ring/field_simp/norm_num, list induction); bitwise differential of the Float instance against the real functions and against mj_step traces taken by ELF symbol interposition; term completeness of the implicit solve's D: translator translate/c05_dterms.py turns the top-level control flow (early returns on the spring / damper / actuation disable flags between the term blocks) of mjd_smooth_vel, mjd_actuator_vel, mjd_passive_vel, mj_passive, mj_fluid and the flg_bias constants of mj_implicitSkip into Lean data, a Lean interpreter of these lists is proved complete for all flag combinations (case analysis + decide) and compared with the real engine on an exhaustive family of single-term probe scenes; property oracle on the traces incl. qDeriv vs central differences of the engine's own forces",
+    "text": "Proved over the reals for the model (all inputs): the advance step is the documented semi-implicit rule (velocity first: v' = v + h a; then positions on the joint manifold with the NEW velocity; time' = time + h), per joint type (slide/hinge x + h v, free translation p + h v, quaternion q * exp(h w / 2) for unit q in both branches of the mjMINVAL guard of mju_normalize3 and of the angle == 0 test); the generated mju_quatIntegrate returns a quaternion with | |q'| - 1 | <= mjMINVAL for EVERY input (exactly unit whenever mju_normalize4 resets or divides) and mj_integratePos keeps / produces such quaternions in every free and ball slot of qpos of any layout while leaving the result length equal to nq; the generated RK4 tableau is the classical one and satisfies all eight order-4 conditions with C = row sums; the modelled mj_RungeKutta stage and final combinations equal the classical weighted sums componentwise (stage times t + c_i h, final time t + h); mj_nextActivation stays inside actrange for every dyntype except mjDYN_DCMOTOR when actlimited (and the DC-motor integral slot inside +-Imax), is the Euler step otherwise and the documented exact filter formula for filterexact; given a certificate (M - hD) x = M a the implicit velocity update v + h x satisfies the documented linear system and equals v + h (M - hD)^-1 M a when the matrix is invertible; for EVERY combination of the spring / damper / actuation / eulerdamp disable flags the D of implicit contains the velocity derivative of a smooth force term (joint damper, tendon damper, fluid inertia-box, fluid ellipsoid, actuator, Coriolis / gyroscopic bias) exactly when the forward pass applies that term, implicitfast the same except the documented Coriolis exclusion for chains, Euler only the applied joint damping unless eulerdamp is disabled, and no integrator differentiates a force that is not applied (about the interpreter of the generated statement lists); if the force is affine in the velocity with slope D and the solve used D', the new velocity misses the backward-Euler equation M (v' - v) = h f(v') by exactly h^2 (D' - D) x, so with D' = D it solves it. Tied to /repo on every run by translation (kernels, tableau), bitwise direct differential (mj_integratePos, mj_nextActivation incl. every DC-motor slot, mju_quatIntegrate, mju_clip, RK4_A/B) and the bitwise update-rule differential on mj_step under Euler / RK4 / implicit / implicitfast.",
+    "note": "Stated over the reals (rounding outside the proofs; the Float instance of the same definitions is compared bitwise with the engine). Not modelled: history buffers, sleeping (mj_sleep and the awake-index variants; sleep is never enabled in the sampled models), plugins, qacc_warmstart, flex-CG. The linear solve inside Euler-with-damping / implicit / implicitfast is NOT modelled: theorem implicit_update_partial takes the solution as a certified input, and the oracle checks the residual of the engine's own solution against a dense (M - hD) assembled from the engine's M and qDeriv, and qDeriv itself (all of D on its sparsity pattern, under the option flags of the step) against central differences of the engine's own qfrc_passive + qfrc_actuator (- qfrc_bias) within 1e-4 relative (observed <= 1e-3 of the allowance on states outside the two known-deviation regimes); the numerical content of the individual derivative routines stays C25's concern: states where the mjMINVAL guard of mjd_viscous_drag is active (C25 finding c25:qderiv:passive:ellipsoid-drag-minval-guard) are not judged on a mismatch, and a mismatch that disappears when mjd_smooth_vel is re-evaluated with d->ctrl clamped to ctrlrange is reported as finding c05:implicit-D:actuator-ctrl-outside-ctrlrange (same root cause as c25:qderiv:actuator:ctrl-outside-ctrlrange / c27:ctrl-not-clamped:implicit-derivative). In the term model the value-level gating inside mj_springdamper (enbl_damper) and mj_fwdActuation, the damping test of mj_EulerSkip and the free-body re-solve of implicitfast are hand-written (tied by the probe differential only); flex and plugin / callback passive forces are not modelled or sampled. The re-anchoring of integrator setpoints on rotational transmissions (wrapPeriod / wrapSetpoint / SO3) is modelled as coded and compared bitwise, but it is applied AFTER the actrange clamp, so the final act of such an actuator can leave actrange: this is reported as a finding (key c05:act-outside-actrange:wrap-after-clamp), the theorem nextActivation_in_actrange is about mj_nextActivation and advanceAct_in_actrange needs wrap period 0. The flat qpos/qvel/act arrays are modelled as the concatenation of per-joint / per-actuator blocks (layout checked on every sampled model, index arithmetic covered by the correspondence only).",
 }
 
 P = "MjProof.C05."
@@ -42,7 +54,10 @@ THEOREMS = [P + t for t in (
     "rk4_combine_def", "rk4_stage_def", "rk4_time",
     "nextActivation_in_actrange", "nextActivation_dcIntegral_bounded", "nextActivation_euler_def",
     "nextActivation_filterexact_def", "advanceAct_in_actrange", "wrap_after_clamp_escapes",
+    "nextActivation_filterexact_otherSlot",
     "time_advance", "implicit_update_partial", "implicit_update_inverse",
+    "implicit_D_complete", "implicitfast_D_complete", "euler_rk4_D_def", "D_only_of_applied_forces",
+    "implicit_update_backward_euler_residual", "implicit_update_solves_backward_euler",
 )]
 
 KERNELS = ["mju_clip", "mju_max", "mju_min", "mj_lugreStribeck", "mju_quatIntegrate", "mju_normalize3", "mju_normalize4",
@@ -52,6 +67,12 @@ MINVAL = 1e-15
 QTOL = 1e-12        # unit-norm tolerance of the oracle (observed deviations are <= 4e-16)
 RTOL = 1e-12        # relative tolerance of the Python re-computations (observed <= ~3e-16 of the scale)
 CERT_TOL = 1e-9     # residual of the implicit solve relative to |Mhat| |x| + |rhs| (observed <= ~1e-13, see evidence)
+# D of the implicit solve vs central differences (eps 1e-6) of the engine's own smooth forces: allowed deviation
+# D_TOL_REL * max(|D|, |FD|) + D_TOL_FRC * max|force| + D_TOL_ABS   (calibration: see evidence, oracle_max_deviation_over_allowed)
+D_TOL_REL, D_TOL_FRC, D_TOL_ABS = 1e-4, 1e-7, 3e-5
+KEY_D = "c05:implicit-D-is-not-the-force-velocity-derivative"
+KEY_D_CTRL = "c05:implicit-D:actuator-ctrl-outside-ctrlrange"
+KEY_D_FREE = "c05:implicit-D:free-body-block"
 
 fbits = kernelval.fbits
 frombits = kernelval.frombits
@@ -220,13 +241,63 @@ def extra_actuators(gen, mdl, rng, stats):
         stats[kind] = stats.get(kind, 0) + 1
 
 
+def velocity_forces(mdl, rng, stats):
+    """velocity-dependent smooth forces beyond linear joint damping: polynomial joint / tendon damping, a fluid medium
+    (inertia-box model, ellipsoid model on some geoms, wind); their derivatives must all be in the D of the implicit solve"""
+    L = mdl.lines.append
+    kinds, handle = {}, {}
+    for ln in list(mdl.lines):
+        w = ln.split()
+        if w[0] in ("tendon", "geom"):
+            kinds[w[1]] = w[0]
+        if w[0] == "name" and w[1] in kinds:
+            handle[w[2]] = (int(w[1]), kinds[w[1]])
+
+    def note(k):
+        stats[k] = stats.get(k, 0) + 1
+    for j in mdl.joints:
+        if j["type"] != "free" and rng.random() < 0.3:
+            L("set %d damping %r %r %r" % (j["handle"], rng.uniform(0.05, 2), rng.uniform(0, 1.5), rng.uniform(0, 1.0)))
+            note("feature:joint-polydamping")
+    for nm, (hh, kd) in sorted(handle.items()):
+        if kd == "tendon" and rng.random() < 0.6:
+            L("set %d damping %r %r %r" % (hh, rng.uniform(0.05, 1), rng.choice((0.0, rng.uniform(0, 1.0))), rng.choice((0.0, rng.uniform(0, 0.5)))))
+            note("feature:tendon-damping")
+    if rng.random() < 0.45:
+        L("option density %r" % rng.choice((0.0, 1.2, 50.0, 1000.0)))
+        L("option viscosity %r" % rng.choice((0.0, 0.00002, 0.1, 2.0)))
+        if rng.random() < 0.5:
+            L("option wind %r %r %r" % tuple(rng.gauss(0, 1) for _ in range(3)))
+        note("feature:fluid")
+        for nm, (hh, kd) in sorted(handle.items()):
+            if kd == "geom" and nm != "floor" and rng.random() < 0.35:
+                L("set %d fluid_ellipsoid 1" % hh)
+                L("set %d fluid_coefs 0.5 0.25 1.5 1.0 1.0" % hh)
+                note("feature:fluid-ellipsoid-geom")
+
+
 def make_model(rng, integ, stats):
     prof = {"integrators": (integ,), "free": 0.5, "ball": 0.3, "damping": 0.5, "no_eulerdamp": 0.3, "actuators": (0, 3),
             "nbody": (1, 5), "sleep": 0.0, "keys": 0.0, "sensors": (0, 1), "cameras": 0.0}
     gen = ModelGen(rng, prof)
     mdl = gen.make()
     extra_actuators(gen, mdl, rng, stats)
+    velocity_forces(mdl, rng, stats)
     return mdl
+
+
+def ctrl_ranges(mdl):
+    """ctrlrange of the k-th actuator of the description (None when not limited)"""
+    rg, lim, order = {}, set(), []
+    for ln in mdl.lines:
+        w = ln.split()
+        if w[0] == "actuator":
+            order.append(int(w[1]))
+        elif w[0] == "set" and len(w) > 4 and w[2] == "ctrlrange":
+            rg[int(w[1])] = (float(w[3]), float(w[4]))
+        elif w[0] == "set" and len(w) > 3 and w[2] == "ctrllimited" and int(w[3]) == E("mjLIMITED_TRUE"):
+            lim.add(int(w[1]))
+    return [rg.get(h) if h in lim else None for h in order]
 
 
 def state_lines(mdl, rng, stats):
@@ -243,6 +314,12 @@ def state_lines(mdl, rng, stats):
         stats["nonunit_quat_states"] = stats.get("nonunit_quat_states", 0) + 1
     act = [rng.uniform(-2.0, 2.0) for _ in range(mdl.na)]
     ctrl = [rng.choice((1, -1)) * rng.choice((0.3, 1.5, 20.0, 200.0)) * rng.random() for _ in range(mdl.nu)]
+    if rng.random() < 0.5:
+        # half of the states keep limited controls inside their ctrlrange (the other half leaves them far outside on purpose)
+        for k, r in enumerate(ctrl_ranges(mdl)[:len(ctrl)]):
+            if r is not None:
+                ctrl[k] = r[0] + (r[1] - r[0]) * rng.uniform(0.05, 0.95)
+        stats["ctrl_inside_ctrlrange_states"] = stats.get("ctrl_inside_ctrlrange_states", 0) + 1
     qvel = st["qvel"]
     if rng.random() < 0.2:
         qvel = [v * 10 for v in qvel]
@@ -268,17 +345,112 @@ def wrap_probe_lines():
                                                   "nsteps": 2}], "label": "wrap-probe"}
 
 
+
+# ------------------------------------------------------------------------------------------ single-term probe scenes
+TERMS = ("dofDamper", "tendonDamper", "fluidBox", "fluidEllipsoid", "actuator", "biasChain", "biasFree")
+TERM_JT = {"dofDamper": 0, "tendonDamper": 0, "fluidBox": 1, "fluidEllipsoid": 1, "actuator": 4, "biasChain": 5, "biasFree": 5}
+PROBE_FLAGS = ("mjDSBL_SPRING", "mjDSBL_DAMPER", "mjDSBL_ACTUATION", "mjDSBL_EULERDAMP")
+
+
+def probe_scene(term):
+    """(model lines without options, state lines): a scene whose ONLY velocity-dependent smooth force is `term`"""
+    SPH, BOX, ELL = E("mjGEOM_SPHERE"), E("mjGEOM_BOX"), E("mjGEOM_ELLIPSOID")
+    HINGE, SLIDE, FREE = E("mjJNT_HINGE"), E("mjJNT_SLIDE"), E("mjJNT_FREE")
+    L = ["body 1 0", "name 1 b1", "set 1 pos 0 0 1"]
+    if term == "dofDamper":
+        L += ["joint 2 1", "name 2 j1", "set 2 type %d" % HINGE, "set 2 axis 0 1 0", "set 2 damping 0.7 0.3 0.2",
+              "geom 3 1", "set 3 type %d" % SPH, "set 3 size 0.1", "set 3 pos 0.3 0 0"]
+        st = ["set qpos 0.2", "set qvel 1.3"]
+    elif term == "tendonDamper":
+        L += ["joint 2 1", "name 2 j1", "set 2 type %d" % SLIDE, "set 2 axis 0 0 1",
+              "geom 3 1", "set 3 type %d" % SPH, "set 3 size 0.1",
+              "body 4 1", "name 4 b2", "set 4 pos 0.3 0 0", "joint 5 4", "name 5 j2", "set 5 type %d" % SLIDE, "set 5 axis 1 0 0",
+              "geom 6 4", "set 6 type %d" % SPH, "set 6 size 0.08",
+              "tendon 7", "name 7 t1", "wrap 7 joint j1 1.0", "wrap 7 joint j2 -0.7", "set 7 damping 0.5 0.2 0.1"]
+        st = ["set qpos 0.1 -0.05", "set qvel 1.0 -0.4"]
+    elif term in ("fluidBox", "fluidEllipsoid"):
+        L = ["option density 50", "option viscosity 0.1"] + L
+        L += ["joint 2 1", "name 2 j1", "set 2 type %d" % SLIDE, "set 2 axis 0 0 1", "geom 3 1"]
+        if term == "fluidBox":
+            L += ["set 3 type %d" % BOX, "set 3 size 0.1 0.2 0.3"]
+        else:
+            L += ["set 3 type %d" % ELL, "set 3 size 0.1 0.15 0.2", "set 3 fluid_ellipsoid 1", "set 3 fluid_coefs 0.5 0.25 1.5 1.0 1.0"]
+        st = ["set qpos 0.1", "set qvel 0.8"]
+    elif term == "actuator":
+        L += ["joint 2 1", "name 2 j1", "set 2 type %d" % SLIDE, "set 2 axis 0 0 1", "geom 3 1", "set 3 type %d" % SPH, "set 3 size 0.1",
+              "actuator 4", "name 4 a1", "set 4 trntype %d" % E("mjTRN_JOINT"), "set 4 target j1", "set 4 gainprm 3",
+              "set 4 biastype %d" % E("mjBIAS_AFFINE"), "set 4 biasprm 0 0 -3"]
+        st = ["set qpos 0.1", "set qvel 0.5", "set ctrl 0.3"]
+    elif term == "biasChain":
+        L += ["joint 2 1", "name 2 j1", "set 2 type %d" % HINGE, "set 2 axis 0 1 0", "geom 3 1", "set 3 type %d" % SPH, "set 3 size 0.1",
+              "set 3 pos 0.3 0 0", "body 4 1", "name 4 b2", "set 4 pos 0.3 0 0", "joint 5 4", "name 5 j2", "set 5 type %d" % HINGE,
+              "set 5 axis 0 1 0", "geom 6 4", "set 6 type %d" % SPH, "set 6 size 0.08", "set 6 pos 0.25 0 0"]
+        st = ["set qpos 0.3 0.7", "set qvel 2.0 -3.0"]
+    elif term == "biasFree":
+        L += ["joint 2 1", "name 2 j1", "set 2 type %d" % FREE, "geom 3 1", "set 3 type %d" % BOX, "set 3 size 0.1 0.2 0.3"]
+        st = ["set qpos 0 0 1 1 0 0 0", "set qvel 0.1 0.2 0.3 3.0 -2.0 1.0"]
+    else:
+        raise ValueError(term)
+    return L, st
+
+
+def probe_sessions():
+    """every term x every combination of the four disable flags x Euler / implicit / implicitfast (exhaustive, 336 scenes)"""
+    out = []
+    for term in TERMS:
+        body, st = probe_scene(term)
+        for integ in ("EULER", "IMPLICIT", "IMPLICITFAST"):
+            for bits in range(16):
+                fl = [(bits >> k) & 1 for k in range(4)]
+                dis = sum(E(n) for n, b in zip(PROBE_FLAGS, fl) if b)
+                model = ["option timestep 0.002", "option integrator %d" % E("mjINT_" + integ), "option disableflags %d" % dis] + body
+                out.append({"model": model, "setopt": [], "states": [{"set": list(st), "nsteps": 1}],
+                            "label": "probe:%s:%s:%s" % (term, integ.lower(), "".join(map(str, fl))),
+                            "probe": (term, E("mjINT_" + integ), tuple(fl))})
+    return out
+
+
+def measure_probe(info, g, probe):
+    """-> (DT op line for the Lean model, the answer measured on the engine) or None"""
+    term, integ, fl = probe
+    if "d_have" not in g or I(g, "d_have")[0] != 1 or "acc" not in g:
+        return None
+    jt = F(g, "d_Jt")
+    acc, qacc = F(g, "acc"), F(g, "fw0_qacc")
+    if any(x != x for x in jt + acc + qacc):
+        return None
+    applied = jt[TERM_JT[term]] > 1e-6
+    sc = max(abs(x) for x in qacc) if qacc else 0.0
+    ind = max(abs(a - b) for a, b in zip(acc, qacc)) > 1e-7 * max(sc, 1e-3)
+    return ("DT %d %d %d %d %d %s" % ((integ,) + tuple(fl) + (term,)), "applied %d inD %d" % (applied, ind))
+
+
 def gen_sessions(ctx, nmodels, nstates, nsteps, stats):
     rng = ctx.rng
-    sessions = [wrap_probe_lines()]
+    sessions = [wrap_probe_lines()] + probe_sessions()
+    stats["term_probe_scenes(exhaustive)"] = len(sessions) - 1
     for k in range(nmodels):
         integ = INTEGRATORS[k % 4]
         mdl = make_model(rng, integ, stats)
         setopt = []
         if rng.random() < 0.25:
             setopt.append("setopt disableactuator %d" % rng.choice((1, 2, 5, 15)))
+        # option flags that gate force terms (and must gate their derivatives in D the same way)
+        gate = 0
+        r = rng.random()
+        if r < 0.2:
+            gate |= E("mjDSBL_DAMPER")
+        elif r < 0.3:
+            gate |= E("mjDSBL_SPRING")
+        elif r < 0.36:
+            gate |= E("mjDSBL_SPRING") | E("mjDSBL_DAMPER")
+        if rng.random() < 0.06:
+            gate |= E("mjDSBL_ACTUATION")
         if rng.random() < 0.05:
-            setopt.append("setopt disableflags %d" % (mdl.options["disableflags"] | E("mjDSBL_ACTUATION")))
+            gate |= E("mjDSBL_GRAVITY")
+        if gate:
+            setopt.append("setopt disableflags %d" % (mdl.options["disableflags"] | gate))
+            stats["gate:" + "+".join(flag_names(gate))] = stats.get("gate:" + "+".join(flag_names(gate)), 0) + 1
         sess = {"model": mdl.lines, "setopt": setopt, "states": [], "label": "%s#%d" % (integ, k)}
         for _ in range(nstates):
             sess["states"].append({"set": state_lines(mdl, rng, stats), "nsteps": nsteps})
@@ -307,15 +479,21 @@ def flatten(sessions):
                 lines.append(l)
                 idx.append((si, "set", ti, -1))
             for k in range(st["nsteps"]):
-                lines.append("step")
+                lines.append(step_op(st, k))
                 idx.append((si, "step", ti, k))
     return lines, idx
+
+
+def step_op(st, k):
+    """`stepd` (trace + velocity-derivative data) on the first and the last step of a state, `step` in between"""
+    return "stepd" if st.get("dsteps", True) and k in (0, st["nsteps"] - 1) else "step"
 
 
 def session_replay(s, ti, upto):
     """harness input that reproduces step `upto` of state `ti` of session s"""
     st = s["states"][ti]
-    return ["model " + "|".join(s["model"] + ["end"])] + s["setopt"] + ["info", "reset"] + st["set"] + ["step"] * (upto + 1)
+    return ["model " + "|".join(s["model"] + ["end"])] + s["setopt"] + ["info", "reset"] + st["set"] + \
+        [step_op(st, k) for k in range(upto + 1)]
 
 
 # ------------------------------------------------------------------------------------------ oracle on one step record
@@ -363,7 +541,119 @@ def py_next_act(info, i, act, adot):
     return a
 
 
-def judge_step(info, g, dev):
+
+def flag_names(disableflags):
+    return [n for n in ("mjDSBL_SPRING", "mjDSBL_DAMPER", "mjDSBL_ACTUATION", "mjDSBL_EULERDAMP", "mjDSBL_GRAVITY")
+            if disableflags & E(n)]
+
+
+def judge_D(info, g, dev, fail, note):
+    """The matrix D of the (M - h D) solve of implicit / implicitfast is the velocity derivative of the smooth forces the
+    engine applies in THIS step (under the current option flags): the dense qDeriv that mj_step left behind is compared,
+    on its own sparsity pattern (documented restriction), with central differences of the engine's own
+    qfrc_passive + qfrc_actuator (- qfrc_bias for implicit), symmetrised for implicitfast outside standalone free
+    bodies (documented); for those bodies the block of mjd_freeMhat is compared with M - h (d(passive + actuator - bias)/dv)."""
+    if "d_have" not in g or I(g, "d_have")[0] != 1:
+        return
+    implicit, fast = info.integrator == E("mjINT_IMPLICIT"), info.integrator == E("mjINT_IMPLICITFAST")
+    if not (implicit or fast) or "d_A" not in g:
+        return
+    nv = info.nv
+    for k in ("d_A", "d_Fpas", "d_Fact", "d_Fbias", "d_M", "d_freeA", "d_Aclamp"):
+        if any(t in ("nan", "7ff0000000000000", "fff0000000000000") for t in g[k]):
+            note("D:nonfinite")
+            return
+    mask = I(g, "d_mask")
+    A, Fp, Fa, Fb, M = F(g, "d_A"), F(g, "d_Fpas"), F(g, "d_Fact"), F(g, "d_Fbias"), F(g, "d_M")
+    h = info.h
+    Eu = [Fp[i] + Fa[i] - (Fb[i] if implicit else 0.0) for i in range(nv * nv)]     # as documented, before symmetrisation
+    freeadr = I(g, "d_freeadr")
+    blk = {}
+    for b, adr in enumerate(freeadr):
+        for r in range(6):
+            blk[adr + r] = b
+    if fast:
+        Ex = [Eu[r * nv + c] if (r in blk and blk.get(c) == blk[r]) else 0.5 * (Eu[r * nv + c] + Eu[c * nv + r])
+              for r in range(nv) for c in range(nv)]
+    else:
+        Ex = Eu
+    Em = [x * mk for x, mk in zip(Ex, mask)]
+    frc = max(F(g, "d_frc"))
+    amax = lambda v: max([abs(x) for x in v] or [0.0])
+    tol = D_TOL_REL * max(amax(A), amax(Em)) + D_TOL_FRC * frc + D_TOL_ABS
+    i = max(range(nv * nv), key=lambda k: abs(A[k] - Em[k]))
+    d = abs(A[i] - Em[i])
+    flags = flag_names(info.disableflags)
+    # deviation statistics (calibration of the tolerance) only over states outside the two known-deviation regimes
+    clean = I(g, "d_ctrlout")[0] == 0 and I(g, "d_guard")[0] == 0
+    if d <= tol:
+        if clean:
+            dev.see("D:qDeriv-vs-central-differences", d, tol)
+    else:
+        Ac = F(g, "d_Aclamp")
+        if I(g, "d_ctrlout")[0] > 0 and Ac and max(abs(a - e) for a, e in zip(Ac, Em)) <= tol:
+            # KNOWN FINDING, kept narrow: some limited control is outside its range AND the engine's own mjd_smooth_vel
+            # evaluated with d->ctrl clamped the way mj_fwdActuation clamps it agrees with the finite differences
+            fail(KEY_D_CTRL.split(":", 1)[1], "the D of the %s solve uses the raw d->ctrl in the velocity derivative of the actuator force "
+                 "although the force is computed from ctrl clamped to ctrlrange: qDeriv[%d,%d] = %r, central differences of the "
+                 "applied forces give %r (and mjd_smooth_vel with clamped ctrl agrees with them)"
+                 % ("implicit" if implicit else "implicitfast", i // nv, i % nv, A[i], Em[i]))
+        elif I(g, "d_guard")[0] > 0:
+            # numerical accuracy of mjd_ellipsoidFluid inside its mjMINVAL guard is C25's concern (known finding there)
+            note("D:skipped:ellipsoid-drag-minval-guard-active")
+        else:
+            dev.see("D:qDeriv-vs-central-differences", d, tol)
+            parts = {"passive": Fp[i], "actuator": Fa[i], "bias": -Fb[i]}
+            miss = min(parts, key=lambda k: abs((Em[i] - A[i]) - parts[k])) if not fast else \
+                min(("passive", "actuator"), key=lambda k: abs((Em[i] - A[i]) - parts[k]))
+            fail(KEY_D.split(":", 1)[1] + (":implicit" if implicit else ":implicitfast"),
+                 "the matrix D of the (M - h D) solve is not the velocity derivative of the smooth forces applied in this step "
+                 "(disable flags: %s): qDeriv[%d,%d] = %r but central differences of the engine's own forces give %r "
+                 "(d passive/dv = %r, d actuator/dv = %r, -d bias/dv = %r at that entry; the difference matches the %s term; "
+                 "deviation %.3g > allowed %.3g); max |d qfrc_damper/dv| = %.3g, |d qfrc_fluid/dv| = %.3g"
+                 % (" ".join(flags) or "none", i // nv, i % nv, A[i], Em[i], Fp[i], Fa[i], -Fb[i], miss, d, tol,
+                    F(g, "d_Jt")[0], F(g, "d_Jt")[1]))
+    # standalone free bodies under implicitfast: block of M - h D as assembled by mjd_freeMhat
+    if fast and freeadr:
+        FA = F(g, "d_freeA")
+        for b, adr in enumerate(freeadr):
+            worst, wd = None, -1.0
+            sc = 0.0
+            for r in range(6):
+                for c in range(6):
+                    k = (adr + r) * nv + adr + c
+                    dfm = (M[k] - FA[36 * b + 6 * r + c]) / h
+                    ex = Fp[k] + Fa[k] - Fb[k]
+                    sc = max(sc, abs(dfm), abs(ex))
+                    if abs(dfm - ex) > wd:
+                        worst, wd = (r, c, dfm, ex), abs(dfm - ex)
+            mblk = max(abs(M[(adr + r) * nv + adr + c]) for r in range(6) for c in range(6))
+            tolb = D_TOL_REL * sc + D_TOL_FRC * frc + D_TOL_ABS + 1e-12 * mblk / h
+            if wd <= tolb or I(g, "d_guard")[0] > 0:
+                if wd <= tolb:
+                    if clean:
+                        dev.see("D:free-body-block", wd, tolb)
+                else:
+                    note("D:skipped:ellipsoid-drag-minval-guard-active")
+            else:
+                Ac = F(g, "d_Aclamp")
+                dev.see("D:free-body-block", wd, tolb)
+                if I(g, "d_ctrlout")[0] > 0 and Ac:
+                    fail(KEY_D_CTRL.split(":", 1)[1], "free-body block of the implicitfast solve with a control outside ctrlrange: (M - Mhat)/h [%d,%d] = %r, "
+                         "central differences %r" % (worst[0], worst[1], worst[2], worst[3]))
+                else:
+                    fail(KEY_D_FREE.split(":", 1)[1], "standalone free body at dof %d (disable flags: %s): the 6x6 block M - h D of mjd_freeMhat gives "
+                         "D[%d,%d] = %r but central differences of passive + actuator - bias force give %r (deviation %.3g > allowed %.3g)"
+                         % (adr, " ".join(flags) or "none", worst[0], worst[1], worst[2], worst[3], wd, tolb))
+        note("D:free-body-blocks-judged")
+    note("D:judged:" + ("implicit" if implicit else "implicitfast") + (":" + "+".join(n[7:] for n in flags) if flags else ""))
+    jt = F(g, "d_Jt")
+    for name, v in zip(("damper", "fluid", "spring!", "gravcomp!", "actuator", "bias"), jt):
+        if v > 1e-6:
+            note("D:term-present:" + name)
+
+
+def judge_step(info, g, dev, notes=None):
     """failures (key, description) of one traced mj_step, from the engine's trace alone"""
     fails = []
 
@@ -469,6 +759,8 @@ def judge_step(info, g, dev):
             name = {1: "euler-damping", 2: "implicit", 3: "implicitfast"}[kind]
             if not dev.see("cert:" + name, res, CERT_TOL * scale + 1e-300):
                 fail("implicit-solve:" + name, "(M - h D) x = qfrc_smooth + qfrc_constraint is violated by the engine's x: residual %.3g, scale %.3g" % (res, scale))
+    # ---- the D of the implicit solve is the force-velocity derivative (records of `stepd`)
+    judge_D(info, g, dev, fail, (lambda k: notes.__setitem__(k, notes.get(k, 0) + 1)) if notes is not None else (lambda k: None))
     # ---- activations
     if info.na:
         if info.actuation_disabled():
@@ -529,7 +821,7 @@ def first_diff(a, b):
 
 
 # ------------------------------------------------------------------------------------------ trace run
-def run_trace(ctx, drv, impl, sessions, dev, label, max_report=6):
+def run_trace(ctx, drv, impl, sessions, dev, label, max_report=24):
     lines, idx = flatten(sessions)
     rc, outs, err = ctx.run_lines([impl], lines)
     found, stats = [], {"steps": 0, "judged": 0, "warned": 0, "nonfinite": 0, "engine_error": 0, "model_error": 0, "lean_ops": 0, "lean_mismatch": 0}
@@ -542,6 +834,8 @@ def run_trace(ctx, drv, impl, sessions, dev, label, max_report=6):
         return found, stats, False
     infos, lean_in, lean_exp, lean_src = {}, [], [], []
     layout_bad = 0
+    notes, nkey = {}, {}
+    dt_in, dt_exp, dt_src = [], [], []
     for (si, kind, ti, sk), l, o in zip(idx, lines, outs):
         s = sessions[si]
         if kind == "model":
@@ -574,15 +868,26 @@ def run_trace(ctx, drv, impl, sessions, dev, label, max_report=6):
         if tag != "step" or g is None:
             found.append({"key": "c05:trace-format", "what": "unparsable trace record", "replay": {"record": o[:300]}})
             continue
-        fs, how = judge_step(info, g, dev)
+        fs, how = judge_step(info, g, dev, notes)
         stats[how] += 1
+        if s.get("probe") and sk == 0:
+            m = measure_probe(info, g, s["probe"])
+            if m is None:
+                found.append({"key": "c05:probe-not-measurable", "what": "term probe %r gave no usable record (%s)" % (s["probe"], how),
+                              "replay": {"harness_input": session_replay(s, ti, sk)}})
+            else:
+                dt_in.append(m[0])
+                dt_exp.append(m[1])
+                dt_src.append((si, ti, sk))
         ctx.count((s["label"], ti, sk, ctx.seed))
-        if fs and len(found) < max_report:
-            for key, what in fs[:3]:
+        for key, what in fs[:4]:
+            # at most two reports per key (a frequent known finding must not crowd out another failure class)
+            if nkey.get(key, 0) < 2 and len(found) < max_report:
+                nkey[key] = nkey.get(key, 0) + 1
                 found.append({"key": key, "what": what + "  [%s, state %d, step %d]" % (s["label"], ti, sk),
                               "replay": {"harness_input": session_replay(s, ti, sk),
-                                         "how": "feed harness_input to the c05_integrate harness (checks/c05.py builds it); the last output line is the trace record of the failing step",
-                                         "trace_record": o[:4000]}})
+                                             "how": "feed harness_input to the c05_integrate harness (checks/c05.py builds it); the last output line is the trace record of the failing step",
+                                             "trace_record": o[:4000]}})
         if how == "judged" and drv:
             a, b = lean_line(info, g)
             lean_in.append(a)
@@ -606,6 +911,27 @@ def run_trace(ctx, drv, impl, sessions, dev, label, max_report=6):
                    "correspondence", ok, json.dumps(bad)[:6000])
         if bad:
             ctx.disagreements += [dict(b, stream=label) for b in bad]
+    if drv and dt_in:
+        rc3, out3, err3 = ctx.run_lines([drv], dt_in)
+        if rc3 != 0 or len(out3) != len(dt_in):
+            raise common.Infra("drv_c05 failed on the DT ops: rc=%s %s" % (rc3, err3[-300:]))
+        bad = []
+        for a, b, o, (si, ti, sk) in zip(dt_in, dt_exp, out3, dt_src):
+            ctx.count(a)
+            if o != b:
+                bad.append({"line": a, "model": o, "impl": b, "session": sessions[si]["label"],
+                            "meaning": "`applied`: the forward pass applies the term (finite differences of its force array are non-zero); "
+                                       "`inD`: the vector added to qvel differs from qacc, i.e. the term's derivative is in the D of the solve",
+                            "harness_input": session_replay(sessions[si], ti, sk)})
+        ctx.oblige("correspondence %s: which force terms are applied / enter D under every (integrator, spring, damper, actuation, "
+                   "eulerdamp) combination -- Lean interpreter of the generated statement lists vs single-term probe scenes on the "
+                   "real engine (%d probes, exhaustive)" % (label, len(dt_in)), "correspondence", not bad, json.dumps(bad[:6])[:6000])
+        if bad:
+            ctx.disagreements += [dict(b, stream=label + " DT") for b in bad[:20]]
+            ok = False
+        stats["dt_ops"] = len(dt_in)
+        stats["dt_mismatch"] = len(bad)
+    stats["notes"] = dict(sorted(notes.items()))
     ctx.oblige("layout %s: qpos/qvel/act are the concatenation of per-joint / per-actuator blocks in every sampled model" % label,
                "correspondence", layout_bad == 0, "%d models with another layout" % layout_bad)
     return found, stats, ok
@@ -799,7 +1125,10 @@ def run(ctx):
                 "scaled; angular velocities: zero, 1e-16, axis-aligned, 1e-3..1e3; every dyntype and DC-motor slot); "
                 "(2) traced mj_step on generated models (gen/models.py + extra stateful actuators of every Euler-type dynamics, "
                 "limited/unlimited, servos on ball joints), all four integrators in rotation, states with non-unit quaternions, "
-                "large controls, disabled actuator groups; a case is distinct by (model, state, step) resp. its full op line")
+                "large controls (half of the states inside ctrlrange), disabled actuator groups, fluid media (density / viscosity / wind, "
+                "ellipsoid geoms), polynomial joint / tendon damping, spring / damper / actuation / gravity disable flags; "
+                "(3) 336 single-term probe scenes (exhaustive over term x flags x integrator); "
+                "a case is distinct by (model, state, step) resp. its full op line")
     thorough = ctx.tier == "thorough"
     m = kernelval.regen(ctx)
     mp = os.path.join(kernelval.GEN, "rk4_manifest.json")
@@ -807,6 +1136,11 @@ def run(ctx):
     ctx.oblige("c05_rk4 translates RK4_A / RK4_B and recognises the use-shape of mj_RungeKutta", "translator",
                not man.get("refused"), man.get("refused") or "")
     ctx.extra["rk4_tableau_generated"] = {"A": man.get("A_frac"), "B": man.get("B_frac")}
+    dp = os.path.join(kernelval.GEN, "c05_dterms_manifest.json")
+    dman = json.load(open(dp)) if os.path.exists(dp) else {"refused": "c05_dterms_manifest.json missing"}
+    ctx.oblige("c05_dterms translates the top-level statement lists of mjd_smooth_vel / mjd_actuator_vel / mjd_passive_vel / mj_passive / "
+               "mj_fluid and the flg_bias constants of mj_implicitSkip", "translator", not dman.get("refused"), dman.get("refused") or "")
+    ctx.extra["dterm_statement_lists_generated"] = {"shapes": dman.get("shapes"), "flg_bias": dman.get("flg_bias")}
     ctx.lean_props(THEOREMS)
     kernelval.validate(ctx, m, KERNELS, 5000 if thorough else 200, gens={n: gen_kernel for n in KERNELS}, label="C05 kernels")
     ctx.extra["kernel_body_sha256"] = {n: m.get("kernels", {}).get(n, {}).get("sha256", "")[:16] for n in KERNELS}
@@ -852,6 +1186,7 @@ def run(ctx):
     ctx.extra["input_classes"] = dict(sorted(list(stats.items()) + list(hist.items())))
     ctx.extra["oracle_max_deviation_over_allowed"] = {k: float("%.3g" % v) for k, v in sorted(dev.m.items())}
     ctx.extra["tolerances"] = {"quat_norm": QTOL, "python_recomputation_rel": RTOL, "implicit_residual_rel": CERT_TOL,
+                               "D_vs_central_differences": "%g * max(|D|, |FD|) + %g * max|force| + %g (eps 1e-6)" % (D_TOL_REL, D_TOL_FRC, D_TOL_ABS),
                                "everything_else": "bitwise"}
     ctx.assumptions.append("the flat state arrays are laid out as the concatenation of per-joint / per-actuator blocks (checked per model)")
     ctx.assumptions.append("the trace is taken by interposing mj_forwardSkip / mju_addToScl / mj_integratePosInd in the harness executable; the library code itself is the unmodified tree build")
@@ -861,8 +1196,8 @@ def run(ctx):
         for rnd in range(4):
             st2 = {}
             ss = gen_sessions(c, 200, 2, 3, st2)
-            fnd, _, _ = run_trace(c, None, impl, ss, d2, "directed search %d" % rnd, max_report=1)
-            fnd = [f for f in fnd if f["key"] != "c05:act-outside-actrange:wrap-after-clamp"] or fnd
+            fnd, _, _ = run_trace(c, None, impl, ss, d2, "directed search %d" % rnd)
+            fnd = [f for f in fnd if f["key"] not in ("c05:act-outside-actrange:wrap-after-clamp", KEY_D_CTRL)] or fnd
             if fnd:
                 return fnd[0]
             if drv:
